@@ -56,6 +56,25 @@ def is_update_call(st):
         st.value.func.attr == '_update_items_size' and isinstance(st.value.func.value, ast.Name) and st.value.func.value.id == 'self'
 
 
+def update_guards(stmts):
+    """[(index, [(stmt, call, in_slice_branch)])] for each statement that guarantees a bound check on every path: a plain
+    self._update_items_size(...) call, or an if/else whose every branch contains one (the branch taken for
+    isinstance(index, slice) is marked)"""
+    out = []
+    for j, st in enumerate(stmts):
+        if is_update_call(st):
+            out.append((j, [(st, st.value, False)]))
+        elif isinstance(st, ast.If) and st.orelse:
+            t = ast.unparse(st.test)
+            is_slice_test = 'isinstance(' in t and 'slice' in t
+            negated = isinstance(st.test, ast.UnaryOp) and isinstance(st.test.op, ast.Not)
+            a = [x for x in st.body if is_update_call(x)]
+            b = [x for x in st.orelse if is_update_call(x)]
+            if a and b:
+                out.append((j, [(a[-1], a[-1].value, is_slice_test and not negated), (b[-1], b[-1].value, is_slice_test and negated)]))
+    return out
+
+
 def check(ctx, report):
     model, it = ctx.model, ctx.interp
     ab = model.cls('ArrayBase')
@@ -87,33 +106,37 @@ def check(ctx, report):
             for st in nested:
                 report.add('C12.R1', f.construct + '@conditional-mutation', 'mutation of self._items inside a nested block cannot be matched with a dominating check')
             for i, kind in muts:
-                upd = [j for j in range(i) if is_update_call(body[j])]
                 earlier = [j for j, _ in muts if j < i]
-                if not upd:
-                    report.add('C12.R1', '%s@%s' % (f.construct, kind), 'self._items is mutated without a preceding self._update_items_size(...)')
+                guards = update_guards(body[:i])
+                if not guards:
+                    report.add('C12.R1', '%s@%s' % (f.construct, kind), 'self._items is mutated without a preceding self._update_items_size(...) on every path')
                     continue
-                if earlier and min(earlier) < upd[0]:
+                first_guard = guards[0][0]
+                if earlier and min(earlier) < first_guard:
                     report.add('C12.R1', '%s@%s' % (f.construct, kind), 'self._items is mutated before the bound check')
                     continue
-                call = body[upd[-1]].value
-                kw = {k.arg: k.value for k in call.keywords}
                 params = f.params
-                if kind in ('del', 'setitem'):
-                    d = kw.get('del_item')
-                    if not (isinstance(d, ast.Subscript) and self_items(d.value) and isinstance(d.slice, ast.Name) and d.slice.id in params):
-                        report.add('C12.R1', '%s@%s' % (f.construct, kind), 'check does not name the item being removed (del_item=self._items[<index>])')
-                if kind in ('setitem', 'insert', 'append'):
-                    v = kw.get('insert_item')
-                    if not (isinstance(v, ast.Name) and v.id in params):
-                        report.add('C12.R1', '%s@%s' % (f.construct, kind), 'check does not name the item being added (insert_item=<value>)')
-                if kind == 'del' and 'insert_item' in kw or kind in ('insert', 'append') and 'del_item' in kw:
-                    report.add('C12.R1', '%s@%s' % (f.construct, kind), 'check describes a different edit than the mutation that follows')
+                for _, call, in_slice_branch in guards[-1][1]:
+                    kw = {k.arg: k.value for k in call.keywords}
+                    dk, ik = ('del_items', 'insert_items') if in_slice_branch else ('del_item', 'insert_item')
+                    if kind in ('del', 'setitem'):
+                        d = kw.get(dk)
+                        if not (isinstance(d, ast.Subscript) and self_items(d.value) and isinstance(d.slice, ast.Name) and d.slice.id in params):
+                            report.add('C12.R1', '%s@%s' % (f.construct, kind), 'check does not name the item(s) being removed (%s=self._items[<index>])' % dk)
+                    if kind in ('setitem', 'insert', 'append'):
+                        v = kw.get(ik)
+                        if not (isinstance(v, ast.Name) and v.id in params):
+                            report.add('C12.R1', '%s@%s' % (f.construct, kind), 'check does not name the item(s) being added (%s=<value>)' % ik)
+                    other_d = 'del_item' if dk == 'del_items' else 'del_items'
+                    if kind == 'del' and (ik in kw or 'insert_item' in kw or 'insert_items' in kw) or \
+                            kind in ('insert', 'append') and ('del_item' in kw or 'del_items' in kw):
+                        report.add('C12.R1', '%s@%s' % (f.construct, kind), 'check describes a different edit than the mutation that follows')
                 # R4: the index parameter may be a slice (MutableSequence contract)
                 if kind in ('del', 'setitem'):
                     report.count('C12.R4')
-                    handles = any(isinstance(n, ast.Call) and isinstance(n.func, ast.Name) and n.func.id == 'isinstance' and
-                                  any(isinstance(x, ast.Name) and x.id == 'slice' for x in ast.walk(n)) for n in ast.walk(f.node))
-                    if not handles:
+                    slice_branches = [g for g in guards[-1][1] if g[2]]
+                    plain_branches = [g for g in guards[-1][1] if not g[2]]
+                    if not slice_branches or not plain_branches:
                         report.add('C12.R4', f.construct + '@slice', 'index may be a slice: self._items[index] is then a list handed to get_item_size as one item, _items_size drifts')
     # R2
     u = ab.methods.get('_update_items_size')
